@@ -31,11 +31,66 @@ theorem nodeOf_facts (t : Tok) (h : t.isOp = false) :
     ((∃ n k, nodeOf t = .vtype n k) ↔ ∃ n k, t = .vtype n k) ∧ (∀ o, t ≠ .op o) := by
   cases t <;> simp [Tok.isOp] at h <;> simp [nodeOf, printToks, colonLu]
 
+theorem nodeOf_canon (t : Tok) (h : t.isOp = false) : canonB (nodeOf t) = true ∧ rootPrec (nodeOf t) = 0 := by
+  cases t <;> simp [Tok.isOp] at h <;> simp [nodeOf, canonB, rootPrec]
+
+/-- a primary expression can be the right operand of any pending operator -/
+theorem accepts_zero (f : Frame) (hf : f.ok) (hnp : f.isPost = false) : f.accepts 0 = true := by
+  cases f with
+  | pre n => have := prec16_facts.2.2.2 n.op hf; simp [Frame.accepts, rightFits]; omega
+  | bin n l => have := (prec16_facts.2.1 n.op hf).2; simp [Frame.accepts, rightFits]; omega
+  | colon n c t q => simp [Frame.accepts, rightFits, pfx_prec_facts.2.2.2.1]
+  | post n e => simp [Frame.isPost] at hnp
+  | quest n c => rfl
+  | opn n => rfl
+
+/-- an operator that `keeps` the pending operator of a frame can stand to its right -/
+theorem accepts_of_keeps (f : Frame) (hf : f.ok) (hnp : f.isPost = false) (o : Op)
+    (h : keeps o f.node.op = true) : f.accepts o.prec = true := by
+  by_cases hr : f.reducible = true
+  · obtain ⟨hps, hqm⟩ := frame_ty f hf hr
+    apply accepts_of_notPops f hf hr hnp o
+    simp only [keeps, Bool.or_eq_true] at h
+    rcases h with (h | h) | h
+    · rw [hps] at h; simp at h
+    · rw [← has_q_eq, hqm] at h; simp at h
+    · unfold pops
+      cases hx : (decide (o.prec > f.node.op.prec) || (o.prec == f.node.op.prec && leftAssoc f.node.op.prec))
+      · rfl
+      · rw [hx] at h; simp at h
+  · cases f with
+    | opn n => rfl
+    | quest n c => rfl
+    | pre n => simp [Frame.reducible, Frame.isOpn, Frame.isQuest] at hr
+    | bin n l => simp [Frame.reducible, Frame.isOpn, Frame.isQuest] at hr
+    | post n e => simp [Frame.reducible, Frame.isOpn, Frame.isQuest] at hr
+    | colon n c t q => simp [Frame.reducible, Frame.isOpn, Frame.isQuest] at hr
+
+theorem Stacked.cons {f : Frame} {fs : List Frame} (h : Stacked fs) (hacc : ∀ g, fs.head? = some g → g.accepts f.lvl = true) :
+    Stacked (f :: fs) := by
+  cases fs with
+  | nil => trivial
+  | cons g rest => exact ⟨hacc g rfl, h⟩
+
+theorem Stacked.prefix {a b : List Frame} (h : Stacked (a ++ b)) : Stacked a := by
+  induction a with
+  | nil => trivial
+  | cons x xs ih =>
+    cases xs with
+    | nil => trivial
+    | cons y ys => exact ⟨h.1, ih h.2⟩
+
 theorem Levels.cur_rep {cur : Lvl} {stk : List Lvl} {sc : Scope} {stack : List Scope} {shs : List ShScope}
     (h : Levels cur stk sc stack shs) : cur.Rep sc ∧ cur.Good := by
   cases h with
   | root _ _ h1 h2 _ => exact ⟨h1, h2⟩
   | push _ _ _ _ _ _ _ _ _ h1 h2 _ _ _ => exact ⟨h1, h2⟩
+
+/-- the operand on top of a scope is a precedence-correct primary expression, acceptable to the frame below -/
+theorem top_accepted {l : Lvl} (hg : l.Good) (e : Expr) (he : l.top = some e) :
+    canonB e = true ∧ ∀ f, l.fs.head? = some f → f.isPost = false → f.accepts (rootPrec e) = true := by
+  obtain ⟨c1, c2⟩ := hg.topCanon e he
+  exact ⟨c1, fun f hf hnp => by rw [c2]; exact accepts_zero f (hg.frames.ok f (List.mem_of_mem_head? hf)) hnp⟩
 
 /-- an operand token in operand position -/
 theorem step_operand (s s' : Sh) (σ σ' : St) (t : Tok) (next : Option Tok) (consumed : List Tok)
@@ -61,7 +116,8 @@ theorem step_operand (s s' : Sh) (σ σ' : St) (t : Tok) (next : Option Tok) (co
         · show nodeOf t :: σ.cur.out = scopeOut cur.fs (some (nodeOf t))
           rw [hrep.1, htop, scopeOut_some]
         · exact hrep.2
-      · exact ⟨hgood.frames, hgood.noOpn, fun e he => by simp at he; subst he; exact nf2⟩
+      · exact ⟨hgood.frames, hgood.noOpn, fun e he => by simp at he; subst he; exact nf2,
+               fun e he => by simp at he; subst he; exact nodeOf_canon t ht⟩
       · rfl
       · rfl
     · rw [hinv.toks]
@@ -258,7 +314,7 @@ theorem step_prefix (s s' : Sh) (σ σ' : St) (o : Op) (next : Option Tok) (cons
             rw [hrep.1]; simp [scopeOut, fr, Frame.outs]
           · show _ :: σ.cur.ops = scopeOps (fr :: cur.fs)
             rw [hrep.2]; rfl
-        · refine ⟨⟨?_, ?_, ?_⟩, ?_, hgood.topOk⟩
+        · refine ⟨⟨?_, ?_, ?_, ?_, ?_, ?_⟩, ?_, hgood.topOk, hgood.topCanon⟩
           · intro f hf; rw [hfs'] at hf; simp at hf; rcases hf with rfl | hf
             · exact hfrok
             · exact hgood.frames.ok f hf
@@ -272,6 +328,30 @@ theorem step_prefix (s s' : Sh) (σ σ' : St) (o : Op) (next : Option Tok) (cons
           · intro f hf e he; rw [hfs'] at hf; simp at hf; rcases hf with rfl | hf
             · simp [fr, Frame.outs] at he
             · exact hgood.frames.nocolon f hf e he
+          · intro f hf e he; rw [hfs'] at hf; simp at hf; rcases hf with rfl | hf
+            · simp [fr, Frame.operands] at he
+            · exact hgood.frames.canon f hf e he
+          · intro f hf; rw [hfs'] at hf; simp at hf; rcases hf with rfl | hf
+            · rfl
+            · exact hgood.frames.fit f hf
+          · rw [hfs']
+            apply Stacked.cons hgood.frames.stacked
+            intro g hg
+            show g.accepts o'.prec = true
+            have hgok := hgood.frames.ok g (List.mem_of_mem_head? hg)
+            have hgnp := hnp g hg
+            apply accepts_of_keeps g hgok hgnp
+            unfold prefixKeeps at hkeep
+            by_cases hce : s.prevCastEnd = true
+            · simp only [hce, if_true] at hkeep hprev
+              obtain ⟨n, fs'', hfs2, hn⟩ := hprev
+              rw [hfs2] at hg; simp at hg; subst hg
+              simpa [Frame.node, hn] using hkeep
+            · simp only [hce, Bool.false_eq_true, if_false] at hkeep hprev
+              rcases hprev with ⟨hnil, _⟩ | ⟨g', fs'', hfs2, hp⟩
+              · rw [hnil] at hg; simp at hg
+              · rw [hfs2] at hg; simp at hg; subst hg
+                rw [hp] at hkeep; simpa using hkeep
           · intro f hf; simp at hf; rcases hf with rfl | hf
             · rfl
             · exact hgood.noOpn f hf
@@ -323,6 +403,7 @@ theorem prevO_kinds {s : Sh} {cur : Lvl} (h : PrevO s cur) (hg : cur.Good) :
 theorem infix_core (s : Sh) (σ σ' : St) (consumed : List Tok) (cur : Lvl) (stk : List Lvl)
     (hinv : Inv s σ consumed cur stk) (hno : s.needOperand = false) (o o' : Op) (next : Option Tok)
     (hreg : o ∈ registered) (hres : resolveBy false o = some o') (hcol : has o'.ty T.colon = false)
+    (hprec1 : o'.prec ≥ 1)
     (hprec : isPostfixTok s.prev = true → o'.prec ≥ 2)
     (hnext : (has o.ty T.increment || has o.ty T.decrement) = true →
               next.isNone = true ∨ isPairEndTok next = true ∨ isOperatorTok next = true)
@@ -334,7 +415,9 @@ theorem infix_core (s : Sh) (σ σ' : St) (consumed : List Tok) (cur : Lvl) (stk
       FramesOk (pre' ++ baseFrames cur.base) ∧ colonLu e' = false ∧
       (∀ f, (pre' ++ baseFrames cur.base).head? = some f → f.isPost = false) ∧
       scopeToks (pre' ++ baseFrames cur.base) (some e') = scopeToks cur.fs cur.top ∧
-      questCount (pre' ++ baseFrames cur.base) = questCount cur.fs ∧ (∀ f ∈ pre', f.isOpn = false) := by
+      questCount (pre' ++ baseFrames cur.base) = questCount cur.fs ∧ (∀ f ∈ pre', f.isOpn = false) ∧
+      canonB e' = true ∧ leftFits o'.prec (rootPrec e') = true ∧
+      (∀ f, (pre' ++ baseFrames cur.base).head? = some f → f.accepts o'.prec = true) := by
   rw [step_op_plain σ o next h1 h2] at hst
   have hmode := hinv.mode
   simp only [hno, Bool.false_eq_true, if_false] at hmode
@@ -373,11 +456,24 @@ theorem infix_core (s : Sh) (σ σ' : St) (consumed : List Tok) (cur : Lvl) (stk
       cases hps : isPostfixTok s.prev
       · have := hnotpost hps f hf; rw [this] at hfp; simp at hfp
       · rfl
-    obtain ⟨fs', e', dropped, q1, q2, q3, q4, q5, q6, q7, q8, q9⟩ :=
-      popFaster_spec o' σ.prev hcol cur.fs hgood.frames cur.top hm hpost hgood.topOk out' ops' hp
+    have hcan : ∀ e, cur.top = some e → canonB e = true ∧ leftFits o'.prec (rootPrec e) = true ∧
+        ∀ f, cur.fs.head? = some f → f.accepts (rootPrec e) = true := by
+      intro e he
+      obtain ⟨c1, c2⟩ := hgood.topCanon e he
+      refine ⟨c1, ?_, ?_⟩
+      · rw [c2]; simp [leftFits]; omega
+      · intro f hf
+        rw [c2]
+        have hnp : f.isPost = false := by
+          rcases hm with ⟨_, h⟩ | ⟨h, _⟩
+          · exact h f hf
+          · rw [h] at he; simp at he
+        exact accepts_zero f (hgood.frames.ok f (List.mem_of_mem_head? hf)) hnp
+    obtain ⟨fs', e', dropped, q1, q2, q3, q4, q5, q6, q7, q8, q9, q10, q11, q12⟩ :=
+      popFaster_spec o' σ.prev hcol cur.fs hgood.frames cur.top hm hpost hgood.topOk hcan out' ops' hp
     obtain ⟨pre', hfs', hpre⟩ := split_base cur.pre cur.base dropped fs' q8 (fun f hf => reducible_notOpn (q9 f hf))
     subst hfs'
-    refine ⟨pre', e', ?_, q3, q4, q5, q6, q7, ?_⟩
+    refine ⟨pre', e', ?_, q3, q4, q5, q6, q7, ?_, q10, q11, q12⟩
     · rw [← hst, q1, q2]
     · intro f hf; exact hgood.noOpn f (by rw [hpre]; simp [hf])
 
@@ -395,6 +491,8 @@ theorem infix_finish (s s' : Sh) (σ : St) (consumed : List Tok) (cur : Lvl) (st
     (hno : ∀ f ∈ pre', f.isOpn = false)
     (hfr1 : fr.outs = [e']) (hfr2 : fr.toks = printToks e' ++ [.op o]) (hfr3 : fr.node = { op := o' })
     (hfr4 : fr.ok) (hfr5 : fr.isOpn = false)
+    (hcan : canonB e' = true) (hfr6 : fr.operands = [e']) (hfr7 : fr.fit = true)
+    (hfr8 : ∀ f, (pre' ++ baseFrames cur.base).head? = some f → f.accepts fr.lvl = true)
     (hstack : s'.stack = s.stack) (hprev : s'.prev = some (.op o')) (hce : s'.prevCastEnd = false)
     (hcont : s'.content = .other)
     (hmode : if s'.needOperand then PrevE s' { cur with pre := fr :: pre', top := none }
@@ -414,7 +512,7 @@ theorem infix_finish (s s' : Sh) (σ : St) (consumed : List Tok) (cur : Lvl) (st
         simp [scopeOut, hfr1]
       · show _ :: scopeOps (pre' ++ baseFrames cur.base) = scopeOps (fr :: (pre' ++ baseFrames cur.base))
         simp [scopeOps, hfr3]
-    · refine ⟨⟨?_, ?_, ?_⟩, ?_, by simp⟩
+    · refine ⟨⟨?_, ?_, ?_, ?_, ?_, ?_⟩, ?_, by simp, by simp⟩
       · intro f hf; rw [hfs'] at hf; simp only [List.mem_cons] at hf; rcases hf with rfl | hf
         · exact hfr4
         · exact hfs.ok f hf
@@ -428,6 +526,13 @@ theorem infix_finish (s s' : Sh) (σ : St) (consumed : List Tok) (cur : Lvl) (st
       · intro f hf e he; rw [hfs'] at hf; simp only [List.mem_cons] at hf; rcases hf with rfl | hf
         · rw [hfr1] at he; simp at he; subst he; exact hcl
         · exact hfs.nocolon f hf e he
+      · intro f hf e he; rw [hfs'] at hf; simp only [List.mem_cons] at hf; rcases hf with rfl | hf
+        · rw [hfr6] at he; simp at he; subst he; exact hcan
+        · exact hfs.canon f hf e he
+      · intro f hf; rw [hfs'] at hf; simp only [List.mem_cons] at hf; rcases hf with rfl | hf
+        · exact hfr7
+        · exact hfs.fit f hf
+      · rw [hfs']; exact Stacked.cons hfs.stacked hfr8
       · intro f hf; simp only [List.mem_cons] at hf; rcases hf with rfl | hf
         · exact hfr5
         · exact hno f hf
@@ -478,8 +583,8 @@ theorem step_infix (s s' : Sh) (σ σ' : St) (o : Op) (next : Option Tok) (consu
     have hnext : (has o.ty T.increment || has o.ty T.decrement) = true →
         next.isNone = true ∨ isPairEndTok next = true ∨ isOperatorTok next = true := by
       intro h; have := (rf7 h).2 rfl; rw [q1] at this; simp at this
-    obtain ⟨pre', e', hσ, c1, c2, c3, c4, c5, c6⟩ :=
-      infix_core s σ σ' consumed cur stk hinv hno o o' next hreg hres q2 (fun _ => by omega) hnext h1 h2 hst
+    obtain ⟨pre', e', hσ, c1, c2, c3, c4, c5, c6, c7, c8, c9⟩ :=
+      infix_core s σ σ' consumed cur stk hinv hno o o' next hreg hres q2 (by omega) (fun _ => by omega) hnext h1 h2 hst
     subst hσ; subst hsh
     let fr := Frame.quest { op := o' } e'
     refine ⟨{ cur with pre := fr :: pre', top := none }, stk, ?_⟩
@@ -489,6 +594,13 @@ theorem step_infix (s s' : Sh) (σ σ' : St) (o : Op) (next : Option Tok) (consu
     · rfl
     · exact hq
     · rfl
+    · exact c7
+    · rfl
+    · show leftFits Op.questionMark.prec (rootPrec e') = true
+      rw [← qo]; exact c8
+    · intro f hf
+      show f.accepts Op.questionMark.prec = true
+      rw [← qo]; exact c9 f hf
     · rfl
     · rfl
     · rfl
@@ -511,8 +623,9 @@ theorem step_infix (s s' : Sh) (σ σ' : St) (o : Op) (next : Option Tok) (consu
           intro h; have := (rf7 h).2 rfl; rw [b2] at this; simp at this
         have hprec : isPostfixTok s.prev = true → o'.prec ≥ 2 := by
           intro hp; simp [hp] at hcond; exact hcond
-        obtain ⟨pre', e', hσ, c1, c2, c3, c4, c5, c6⟩ :=
-          infix_core s σ σ' consumed cur stk hinv hno o o' next hreg hres (bin_facts2 o' hb) hprec hnext h1 h2 hst
+        obtain ⟨pre', e', hσ, c1, c2, c3, c4, c5, c6, c7, c8, c9⟩ :=
+          infix_core s σ σ' consumed cur stk hinv hno o o' next hreg hres (bin_facts2 o' hb)
+            (prec16_facts.2.1 o' hb).2 hprec hnext h1 h2 hst
         subst hσ; subst hsh
         let fr := Frame.bin { op := o' } e'
         refine ⟨{ cur with pre := fr :: pre', top := none }, stk, ?_⟩
@@ -522,6 +635,10 @@ theorem step_infix (s s' : Sh) (σ σ' : St) (o : Op) (next : Option Tok) (consu
         · rfl
         · exact hb
         · rfl
+        · exact c7
+        · rfl
+        · exact c8
+        · exact c9
         · rfl
         · rfl
         · rfl
@@ -549,8 +666,8 @@ theorem step_infix (s s' : Sh) (σ σ' : St) (o : Op) (next : Option Tok) (consu
             · exact Or.inl h
             · exact Or.inr (Or.inl h)
             · exact Or.inr (Or.inr h)
-          obtain ⟨pre', e', hσ, c1, c2, c3, c4, c5, c6⟩ :=
-            infix_core s σ σ' consumed cur stk hinv hno o o' next hreg hres r1 (fun _ => by omega) hnext h1 h2 hst
+          obtain ⟨pre', e', hσ, c1, c2, c3, c4, c5, c6, c7, c8, c9⟩ :=
+            infix_core s σ σ' consumed cur stk hinv hno o o' next hreg hres r1 (by omega) (fun _ => by omega) hnext h1 h2 hst
           subst hσ; subst hsh
           let fr := Frame.post { op := o' } e'
           refine ⟨{ cur with pre := fr :: pre', top := none }, stk, ?_⟩
@@ -560,6 +677,10 @@ theorem step_infix (s s' : Sh) (σ σ' : St) (o : Op) (next : Option Tok) (consu
           · rfl
           · exact hr
           · rfl
+          · exact c7
+          · rfl
+          · exact c8
+          · exact c9
           · rfl
           · rfl
           · rfl
@@ -615,8 +736,15 @@ theorem step_colon (s s' : Sh) (σ σ' : St) (o : Op) (next : Option Tok) (consu
       simp only [hp, Except.ok.injEq] at hst
       rw [hrep.1, hrep.2] at hp
       have hqc : questCount cur.fs > 0 := by rw [← hinv.pending]; exact hpq
-      obtain ⟨dropped, n, c, fs', t, q1, q2, q3, q4, q5, q6⟩ :=
-        popColon_spec o σ.prev cc cur.fs hgood.frames cur.top hm hqc out' ops' hp
+      have hcan : ∀ e, cur.top = some e → canonB e = true ∧ ∀ f, cur.fs.head? = some f → f.accepts (rootPrec e) = true := by
+        intro e he
+        obtain ⟨c1, c2⟩ := top_accepted hgood e he
+        refine ⟨c1, fun f hf => c2 f hf ?_⟩
+        rcases hm with ⟨_, h⟩ | ⟨h, _⟩
+        · exact h f hf
+        · rw [h] at he; simp at he
+      obtain ⟨dropped, n, c, fs', t, q1, q2, q3, q4, q5, q6, q7⟩ :=
+        popColon_spec o σ.prev cc cur.fs hgood.frames cur.top hm hqc hcan out' ops' hp
       have hsplit : cur.pre ++ baseFrames cur.base = (dropped ++ [Frame.quest n c]) ++ fs' := by
         rw [← Lvl.fs, q1]; simp
       obtain ⟨pre', hfs', hpre⟩ := split_base cur.pre cur.base (dropped ++ [Frame.quest n c]) fs' hsplit
@@ -652,7 +780,9 @@ theorem step_colon (s s' : Sh) (σ σ' : St) (o : Op) (next : Option Tok) (consu
             rw [q3]; simp [scopeOut, fr, Frame.outs]
           · show _ :: ops' = scopeOps (fr :: (pre' ++ baseFrames cur.base))
             rw [q4]; rfl
-        · refine ⟨⟨?_, ?_, ?_⟩, ?_, by simp⟩
+        · have hquest : FramesOk (Frame.quest n c :: (pre' ++ baseFrames cur.base)) := by
+            have := hgood.frames; rw [q1] at this; exact this.suffix
+          refine ⟨⟨?_, ?_, ?_, ?_, ?_, ?_⟩, ?_, by simp, by simp⟩
           · intro f hf; rw [hfs'] at hf; simp only [List.mem_cons] at hf; rcases hf with rfl | hf
             · exact ⟨hc, hnq'⟩
             · exact hfsok.ok f hf
@@ -664,6 +794,23 @@ theorem step_colon (s s' : Sh) (σ σ' : St) (o : Op) (next : Option Tok) (consu
               · rw [he]; simp only [colonLu]; exact q_not_colon n.op hnq'
               · rw [he]; exact hgood.frames.nocolon (Frame.quest n c) (by rw [q1]; simp) c (by simp [Frame.outs])
             · exact hfsok.nocolon f hf e he
+          · intro f hf e he; rw [hfs'] at hf; simp only [List.mem_cons] at hf; rcases hf with rfl | hf
+            · simp only [fr, Frame.operands, List.mem_cons, List.not_mem_nil, or_false] at he
+              rcases he with he | he
+              · rw [he]; exact hquest.canon (Frame.quest n c) (by simp) c (by simp [Frame.operands])
+              · rw [he]; exact q7
+            · exact hfsok.canon f hf e he
+          · intro f hf; rw [hfs'] at hf; simp only [List.mem_cons] at hf; rcases hf with rfl | hf
+            · exact hquest.fit (Frame.quest n c) (by simp)
+            · exact hfsok.fit f hf
+          · rw [hfs']
+            apply Stacked.cons hfsok.stacked
+            intro g hg
+            cases hcf : pre' ++ baseFrames cur.base with
+            | nil => rw [hcf] at hg; simp at hg
+            | cons g' gs =>
+              rw [hcf] at hg hquest; simp at hg; subst hg
+              exact hquest.head_accepts
           · intro f hf; simp only [List.mem_cons] at hf; rcases hf with rfl | hf
             · rfl
             · exact hgood.noOpn f (by rw [hpre]; simp [hf])
@@ -715,20 +862,23 @@ theorem step_open (s s' : Sh) (σ σ' : St) (o : Op) (next : Option Tok) (consum
   let n : OpNode := { op := o }
   let cur' : Lvl := { pre := [], base := some n, top := none }
   have hcur'good : cur'.Good := by
-    refine ⟨⟨?_, by simp [cur', Lvl.fs, baseFrames], ?_⟩, by simp [cur'], by simp [cur']⟩
+    refine ⟨⟨?_, by simp [cur', Lvl.fs, baseFrames], ?_, ?_, ?_, ?_⟩, by simp [cur'], by simp [cur'], by simp [cur']⟩
     · intro f hf; simp [cur', Lvl.fs, baseFrames] at hf; subst hf; exact h1
     · intro f hf e he; simp [cur', Lvl.fs, baseFrames] at hf; subst hf; simp [Frame.outs] at he
+    · intro f hf e he; simp [cur', Lvl.fs, baseFrames] at hf; subst hf; simp [Frame.operands] at he
+    · intro f hf; simp [cur', Lvl.fs, baseFrames] at hf; subst hf; rfl
+    · simp [cur', Lvl.fs, baseFrames, Stacked]
   have htoks : allToks cur' (cur :: stk) = allToks cur stk ++ [Tok.op o] := by
     simp [allToks, cur', Lvl.toks, Lvl.fs, baseFrames, scopeToks, topToks, Frame.toks, n, List.flatMap_append]
   -- common tail of both cases
-  have finish : ∀ (inE : Bool),
+  have finish : ∀ (inE cok : Bool),
       s' = { needOperand := true, pendingQ := 0, content := .empty,
-             stack := { closerTy := shl1 o.ty, inE := inE, savedQ := s.pendingQ } :: s.stack,
+             stack := { closerTy := shl1 o.ty, inE := inE, savedQ := s.pendingQ, castOk := cok } :: s.stack,
              prev := some (.op o), prevCastEnd := false } →
-      PairOk cur n { closerTy := shl1 o.ty, inE := inE, savedQ := s.pendingQ }
+      PairOk cur n { closerTy := shl1 o.ty, inE := inE, savedQ := s.pendingQ, castOk := cok }
         (if σ.prevCastEnd then none else σ.prev) →
       ∃ cur' stk', Inv s' σ' (consumed ++ [.op o]) cur' stk' := by
-    intro inE hs' hpair
+    intro inE cok hs' hpair
     subst hs'; subst hst
     refine ⟨cur', cur :: stk, ?_⟩
     constructor
@@ -748,16 +898,32 @@ theorem step_open (s s' : Sh) (σ σ' : St) (o : Op) (next : Option Tok) (consum
     simp only [shStep, h1, if_true, hne] at hsh
     by_cases hk : (has o.ty T.parentheses || has o.ty T.braces) = true
     · simp only [hk, if_true, Option.some.injEq] at hsh
-      apply finish true hsh.symm
-      refine ⟨rfl, by simpa using hk, ⟨htop, hnp⟩, ?_, hinv.pending⟩
-      simp only [if_true]
-      rw [hinv.castEnd, hinv.prev]
-      by_cases hce : s.prevCastEnd = true
-      · simp [hce]
-      · simp only [hce, Bool.false_eq_true, if_false] at hprev ⊢
-        rcases hprev with ⟨_, hp⟩ | ⟨f, fs', hfs, hp⟩
-        · exact Or.inl hp
-        · exact Or.inr ⟨f.node.op, hp, frame_not_pairEnd f (hgood.frames.ok f (by rw [hfs]; simp)) (hnp f (by rw [hfs]; rfl))⟩
+      apply finish true (prefixKeeps .parenCast s) hsh.symm
+      refine ⟨rfl, by simpa using hk, ⟨htop, hnp⟩, ?_, hinv.pending, ?_⟩
+      · simp only [if_true]
+        rw [hinv.castEnd, hinv.prev]
+        by_cases hce : s.prevCastEnd = true
+        · simp [hce]
+        · simp only [hce, Bool.false_eq_true, if_false] at hprev ⊢
+          rcases hprev with ⟨_, hp⟩ | ⟨f, fs', hfs, hp⟩
+          · exact Or.inl hp
+          · exact Or.inr ⟨f.node.op, hp, frame_not_pairEnd f (hgood.frames.ok f (by rw [hfs]; simp)) (hnp f (by rw [hfs]; rfl))⟩
+      · -- a cast may follow the pending operator
+        intro _ hkeep g hg
+        simp only at hkeep
+        have hgok := hgood.frames.ok g (List.mem_of_mem_head? hg)
+        apply accepts_of_keeps g hgok (hnp g hg)
+        unfold prefixKeeps at hkeep
+        by_cases hce : s.prevCastEnd = true
+        · simp only [hce, if_true] at hkeep hprev
+          obtain ⟨m, fs'', hfs2, hn⟩ := hprev
+          rw [hfs2] at hg; simp at hg; subst hg
+          simpa [Frame.node, hn] using hkeep
+        · simp only [hce, Bool.false_eq_true, if_false] at hkeep hprev
+          rcases hprev with ⟨hnil, _⟩ | ⟨g', fs'', hfs2, hp⟩
+          · rw [hnil] at hg; simp at hg
+          · rw [hfs2] at hg; simp at hg; subst hg
+            rw [hp] at hkeep; simpa using hkeep
     · simp [hk] at hsh
   · simp only [hne, Bool.false_eq_true, if_false] at hmode
     simp only [shStep, h1, if_true, hne, Bool.false_eq_true, if_false] at hsh
@@ -766,9 +932,9 @@ theorem step_open (s s' : Sh) (σ σ' : St) (o : Op) (next : Option Tok) (consum
       simp only [Bool.and_eq_true, Bool.not_eq_true'] at hk
       obtain ⟨hkinds, hnotpost⟩ := prevO_kinds hmode hgood
       obtain ⟨hce, hm, _⟩ := hmode
-      apply finish false hsh.symm
+      apply finish false true hsh.symm
       have hnp := hnotpost hk.2
-      refine ⟨rfl, by simpa using hk.1, ⟨?_, hnp⟩, ?_, hinv.pending⟩
+      refine ⟨rfl, by simpa using hk.1, ⟨?_, hnp⟩, ?_, hinv.pending, fun h => by simp at h⟩
       · simp only [Bool.false_eq_true, if_false]
         rcases hm with ⟨h, _⟩ | ⟨_, n', e, fs', hfs⟩
         · exact h
@@ -813,7 +979,8 @@ theorem scopeToks_base (pre : List Frame) (n : OpNode) (top : Option Expr) :
   simp [scopeToks, baseFrames, Frame.toks]
 
 theorem FramesOk.prefix {a b : List Frame} (h : FramesOk (a ++ b)) : FramesOk a := by
-  refine ⟨fun f hf => h.ok f (by simp [hf]), fun f hf => ?_, fun f hf => h.nocolon f (by simp [hf])⟩
+  refine ⟨fun f hf => h.ok f (by simp [hf]), fun f hf => ?_, fun f hf => h.nocolon f (by simp [hf]),
+    fun f hf => h.canon f (by simp [hf]), fun f hf => h.fit f (by simp [hf]), h.stacked.prefix⟩
   cases a with
   | nil => simp at hf
   | cons x xs => exact h.post f (by simp at hf ⊢; exact Or.inl hf)
@@ -882,7 +1049,7 @@ theorem close_core (s : Sh) (σ : St) (consumed : List Tok) (cur par : Lvl) (stk
     ∃ v', closeLoop o σ.prev (σ.cur.out ++ parent.out) (σ.cur.ops ++ parent.ops) =
             .ok (.pair o v' :: parent.out, parent.ops) ∧
           printToks v' = scopeToks cur.pre cur.top ∧ colonLu v' = false ∧
-          (isTypeNode v' = true ↔ s.content = .oneType) := by
+          (isTypeNode v' = true ↔ s.content = .oneType) ∧ canonB v' = true := by
   obtain ⟨hrep, hgood⟩ := hinv.levels.cur_rep
   have hfs : cur.fs = cur.pre ++ baseFrames (some n) := by rw [Lvl.fs, hbase]
   have hopn : has n.op.ty T.pairStart = true := hgood.frames.ok (Frame.opn n) (by rw [hfs]; simp [baseFrames])
@@ -924,7 +1091,7 @@ theorem close_core (s : Sh) (σ : St) (consumed : List Tok) (cur par : Lvl) (stk
         · rw [hfs, hpre] at hh; simp [baseFrames] at hh
         · rw [hfs, hpre] at hh; simp [baseFrames] at hh
           rw [hp, ← hh.1]; simpa [isPairStartTok, Tok.opType, Frame.node] using hopn
-    refine ⟨.empty, ?_, by rw [hpre, htop]; simp [scopeToks, topToks, printToks], rfl, by simp [isTypeNode, hce]⟩
+    refine ⟨.empty, ?_, by rw [hpre, htop]; simp [scopeToks, topToks, printToks], rfl, by simp [isTypeNode, hce], rfl⟩
     rw [hout, hops, hpre, htop]
     simp only [scopeOut, scopeOps, Option.toList, List.flatMap_nil, List.append_nil, List.nil_append, List.map_nil]
     show closeLoop o σ.prev parent.out (n :: parent.ops) = _
@@ -949,7 +1116,18 @@ theorem close_core (s : Sh) (σ : St) (consumed : List Tok) (cur par : Lvl) (stk
       · cases hp : cur.pre with
         | nil => rw [hp] at b; simp [baseFrames] at b
         | cons x xs => rw [hp] at b; simp at b; exact Or.inr ⟨a, m, e, xs, by rw [b.1]⟩
-    obtain ⟨v, hv1, hv2, hvn, hvt, _, hv4⟩ := reduce_all σ.prev cur.pre hred hpreok cur.top hmo' hgood.topOk
+    have hcan : ∀ e, cur.top = some e → canonB e = true ∧ ∀ f, cur.pre.head? = some f → f.accepts (rootPrec e) = true := by
+      intro e he
+      obtain ⟨c1, c2⟩ := top_accepted hgood e he
+      refine ⟨c1, fun f hf => c2 f ?_ ?_⟩
+      · rw [hfs]
+        cases hp : cur.pre with
+        | nil => rw [hp] at hf; simp at hf
+        | cons x xs => rw [hp] at hf; simpa using hf
+      · rcases hmo' with ⟨_, h⟩ | ⟨h, _⟩
+        · exact h f hf
+        · rw [h] at he; simp at he
+    obtain ⟨v, hv1, hv2, hvn, hvt, hvc, _, hv4⟩ := reduce_all σ.prev cur.pre hred hpreok cur.top hmo' hgood.topOk hcan
     have hnotstart : isPairStartTok σ.prev = false := by
       rw [hinv.prev]
       rcases hkinds with ⟨t, ht, hno⟩ | ⟨b, hb, hbe⟩ | ⟨p, hp, hpr⟩
@@ -959,7 +1137,7 @@ theorem close_core (s : Sh) (σ : St) (consumed : List Tok) (cur par : Lvl) (stk
         | _ => simp [isPairStartTok, Tok.opType]; exact none_facts.1
       · rw [hb]; simp [isPairStartTok, Tok.opType, (pairEnd_facts b hbe).1]
       · rw [hp]; simp [isPairStartTok, Tok.opType, (ru_facts p hpr).1]
-    refine ⟨v, ?_, hv1, hv2, ?_⟩
+    refine ⟨v, ?_, hv1, hv2, ?_, hvc⟩
     · rw [hout, hops]
       have := hv4 o parent.out (n :: parent.ops)
       simp only [List.append_assoc, List.singleton_append] at this ⊢
@@ -1020,7 +1198,8 @@ theorem paren_kinds : has Op.parenthesesEnd.ty T.parentheses = true ∧ has Op.p
 theorem attach_core (par : Lvl) (parent : Scope) (n : OpNode) (o : Op) (sc : ShScope) (before : Option Tok)
     (v' : Expr) (isTy : Bool) (hpar : par.Rep parent) (hparg : par.Good) (hpair : PairOk par n sc before)
     (hopn : has n.op.ty T.pairStart = true) (hm : (o.ty == shl1 n.op.ty) = true)
-    (hcl : colonLu v' = false) (hty : isTypeNode v' = isTy) :
+    (hcl : colonLu v' = false) (hty : isTypeNode v' = isTy) (hvc : canonB v' = true)
+    (hcok : sc.inE = true → has o.ty T.parentheses = true → isTy = true → sc.castOk = true) :
     ∃ (out' : List Expr) (ops' : List OpNode) (par' : Lvl), attachPair before (.pair o v' :: parent.out) parent.ops =
         .ok (out', ops', sc.inE && has o.ty T.parentheses && isTy) ∧
       par'.Rep { parent with out := out', ops := ops' } ∧ par'.Good ∧ par'.base = par.base ∧
@@ -1029,7 +1208,8 @@ theorem attach_core (par : Lvl) (parent : Scope) (n : OpNode) (o : Op) (sc : ShS
       (if sc.inE && has o.ty T.parentheses && isTy then
          par'.top = none ∧ ∃ m, par'.fs = Frame.pre m :: par.fs ∧ m.op = .parenCast
        else par'.top.isSome = true ∧ par'.fs = par.fs ∧ (∀ m k, par'.top ≠ some (Expr.vtype m k))) := by
-  obtain ⟨hcloser, hkind, ⟨hptop, hphead⟩, hbefore, _⟩ := hpair
+  have hpcast := hpair.cast
+  obtain ⟨hcloser, hkind, ⟨hptop, hphead⟩, hbefore, _, _⟩ := hpair
   have hmatch := pair_match n.op o hopn hm
   obtain ⟨k1, k2, k3, k4, k5, k6, k7, k8, k9, k10, k11, k12, k13, k14, k15, k16, k17⟩ := paren_kinds
   have hparout : parent.out = scopeOut par.fs par.top := hpar.1
@@ -1055,7 +1235,8 @@ theorem attach_core (par : Lvl) (parent : Scope) (n : OpNode) (o : Op) (sc : ShS
         · rw [htrans]; simp only [transformLastPair, k1, k2, Bool.or_false, Bool.not_true, Bool.false_eq_true, if_false, if_true]
           cases v' <;> simp_all
         · exact ⟨by show _ = scopeOut par.fs (some _); rw [scopeOut_some, hparout, hptop], hpar.2⟩
-        · exact ⟨hparg.frames, hparg.noOpn, fun e he => by simp at he; subst he; rfl⟩
+        · exact ⟨hparg.frames, hparg.noOpn, fun e he => by simp at he; subst he; rfl,
+                 fun e he => by simp at he; subst he; exact ⟨by simp [canonB, hvc], rfl⟩⟩
         · show scopeToks par.fs (some (.paren v')) = scopeToks par.fs par.top ++ _ ++ _
           rw [scopeToks_some, hptop, ha]; simp [printToks, scopeToks, topToks]
         · simp only [hE, k1, Bool.and_false, Bool.false_eq_true, if_false]
@@ -1070,24 +1251,41 @@ theorem attach_core (par : Lvl) (parent : Scope) (n : OpNode) (o : Op) (sc : ShS
         · rw [htrans]; simp [transformLastPair, k1, hE, cn]
         · exact ⟨by show _ = scopeOut (Frame.pre cn :: par.fs) par.top; rw [hparout]; simp [scopeOut, Frame.outs],
                  by show _ = scopeOps (Frame.pre cn :: par.fs); rw [hpar.2]; rfl⟩
-        · refine ⟨⟨?_, ?_, ?_⟩, ?_, hparg.topOk⟩
-          · intro f hf; simp [Lvl.fs] at hf; rcases hf with rfl | hf
-            · exact parenCast_prefixOk
-            · exact hparg.frames.ok f (by simpa [Lvl.fs] using hf)
-          · intro f hf
-            have hf' : f ∈ par.fs := by simpa [Lvl.fs] using hf
-            cases hcf : par.fs with
-            | nil => rw [hcf] at hf'; simp at hf'
-            | cons g gs =>
-              rw [hcf] at hf'; simp at hf'; rcases hf' with rfl | hf'
-              · exact hphead f (by rw [hcf]; rfl)
-              · exact hparg.frames.post f (by rw [hcf]; simpa using hf')
-          · intro f hf e he; simp [Lvl.fs] at hf; rcases hf with rfl | hf
-            · simp [Frame.outs] at he
-            · exact hparg.frames.nocolon f (by simpa [Lvl.fs] using hf) e he
-          · intro f hf; simp at hf; rcases hf with rfl | hf
-            · rfl
-            · exact hparg.noOpn f hf
+        · have hisTy : isTy = true := hv
+          have hfr : FramesOk (Frame.pre cn :: par.fs) :=
+            { ok := by
+                intro f hf; simp only [List.mem_cons] at hf; rcases hf with rfl | hf
+                · exact parenCast_prefixOk
+                · exact hparg.frames.ok f hf
+              post := by
+                intro f hf
+                simp only [List.tail_cons] at hf
+                cases hcf : par.fs with
+                | nil => rw [hcf] at hf; simp at hf
+                | cons g gs =>
+                  rw [hcf] at hf; simp only [List.mem_cons] at hf; rcases hf with rfl | hf
+                  · exact hphead f (by rw [hcf]; rfl)
+                  · exact hparg.frames.post f (by rw [hcf]; simpa using hf)
+              nocolon := by
+                intro f hf e he; simp only [List.mem_cons] at hf; rcases hf with rfl | hf
+                · simp [Frame.outs] at he
+                · exact hparg.frames.nocolon f hf e he
+              canon := by
+                intro f hf e he; simp only [List.mem_cons] at hf; rcases hf with rfl | hf
+                · simp [Frame.operands] at he
+                · exact hparg.frames.canon f hf e he
+              fit := by
+                intro f hf; simp only [List.mem_cons] at hf; rcases hf with rfl | hf
+                · rfl
+                · exact hparg.frames.fit f hf
+              stacked := by
+                apply Stacked.cons hparg.frames.stacked
+                intro g hg
+                exact hpcast hE (hcok hE k1 hisTy) g hg }
+          refine ⟨hfr, ?_, hparg.topOk, hparg.topCanon⟩
+          intro f hf; simp only [List.mem_cons] at hf; rcases hf with rfl | hf
+          · rfl
+          · exact hparg.noOpn f hf
         · show scopeToks (Frame.pre cn :: par.fs) par.top = scopeToks par.fs par.top ++ _ ++ _
           rw [hptop, scopeToks_consFrame_none, ha]
           simp [Frame.toks, pfxToks, cn, parenCast_cast, printToks]
@@ -1100,7 +1298,8 @@ theorem attach_core (par : Lvl) (parent : Scope) (n : OpNode) (o : Op) (sc : ShS
       refine ⟨.tuple v' :: parent.out, parent.ops, { par with top := some (.tuple v') }, ?_, ?_, ?_, rfl, ?_, rfl, ?_⟩
       · rw [htrans]; simp [transformLastPair, k3, k4, hE]
       · exact ⟨by show _ = scopeOut par.fs (some _); rw [scopeOut_some, hparout, hptop], hpar.2⟩
-      · exact ⟨hparg.frames, hparg.noOpn, fun e he => by simp at he; subst he; rfl⟩
+      · exact ⟨hparg.frames, hparg.noOpn, fun e he => by simp at he; subst he; rfl,
+               fun e he => by simp at he; subst he; exact ⟨by simp [canonB, hvc], rfl⟩⟩
       · show scopeToks par.fs (some (.tuple v')) = scopeToks par.fs par.top ++ _ ++ _
         rw [scopeToks_some, hptop, ha]; simp [printToks, scopeToks, topToks]
       · simp only [hE, k3, Bool.and_false, Bool.false_and, Bool.false_eq_true, if_false]
@@ -1132,7 +1331,7 @@ theorem attach_core (par : Lvl) (parent : Scope) (n : OpNode) (o : Op) (sc : ShS
         | op x => exact absurd rfl (hno x)
         | _ => exact hgo
       · rw [hb]; simp [hbe]; exact hgo
-    have fin : ∀ r, colonLu r = false → (∀ m k, r ≠ .vtype m k) →
+    have fin : ∀ r, colonLu r = false → (∀ m k, r ≠ .vtype m k) → (canonB r = true ∧ rootPrec r = 0) →
         printToks r = printToks f ++ (Tok.op n.op :: printToks v') ++ [Tok.op o] →
         attachPair before (.pair o v' :: parent.out) parent.ops = .ok (r :: scopeOut par.fs none, parent.ops, false) →
         ∃ (out' : List Expr) (ops' : List OpNode) (par' : Lvl), attachPair before (.pair o v' :: parent.out) parent.ops =
@@ -1143,23 +1342,26 @@ theorem attach_core (par : Lvl) (parent : Scope) (n : OpNode) (o : Op) (sc : ShS
           (if sc.inE && has o.ty T.parentheses && isTy then
              par'.top = none ∧ ∃ m, par'.fs = Frame.pre m :: par.fs ∧ m.op = .parenCast
            else par'.top.isSome = true ∧ par'.fs = par.fs ∧ (∀ m k, par'.top ≠ some (Expr.vtype m k))) := by
-      intro r hr1 hr2 hr3 hr4
+      intro r hr1 hr2 hrc hr3 hr4
       refine ⟨r :: scopeOut par.fs none, parent.ops, { par with top := some r }, ?_, ?_, ?_, rfl, ?_, rfl, ?_⟩
       · rw [hr4]; simp [hE']
       · exact ⟨by show _ = scopeOut par.fs (some r); rw [scopeOut_some], hpar.2⟩
-      · exact ⟨hparg.frames, hparg.noOpn, fun e he => by simp at he; subst he; exact hr1⟩
+      · exact ⟨hparg.frames, hparg.noOpn, fun e he => by simp at he; subst he; exact hr1,
+               fun e he => by simp at he; subst he; exact hrc⟩
       · show scopeToks par.fs (some r) = scopeToks par.fs par.top ++ _ ++ _
         rw [scopeToks_some, hf, scopeToks_some, hr3]; simp [List.append_assoc]
       · simp only [hE', Bool.false_and, Bool.false_eq_true, if_false]
         exact ⟨rfl, rfl, fun m k h => by simp at h; exact hr2 m k h⟩
     rcases hmatch with ⟨ha, hb⟩ | ⟨ha, hb⟩ | ⟨ha, hb⟩ | ⟨ha, hb⟩
     · subst hb
-      exact fin (.call f v') rfl (fun _ _ h => by simp at h) (by rw [ha]; simp [printToks])
-        (hatt _ (Or.inl ⟨k1, rfl⟩))
+      obtain ⟨fc1, fc2⟩ := hparg.topCanon f hf
+      exact fin (.call f v') rfl (fun _ _ h => by simp at h) ⟨by simp [canonB, fc1, fc2, hvc], rfl⟩
+        (by rw [ha]; simp [printToks]) (hatt _ (Or.inl ⟨k1, rfl⟩))
     · rw [ha] at hkind; simp [k11, k12] at hkind
     · subst hb
-      exact fin (.sub f v') rfl (fun _ _ h => by simp at h) (by rw [ha]; simp [printToks])
-        (hatt _ (Or.inr ⟨k5, k7, rfl⟩))
+      obtain ⟨fc1, fc2⟩ := hparg.topCanon f hf
+      exact fin (.sub f v') rfl (fun _ _ h => by simp at h) ⟨by simp [canonB, fc1, fc2, hvc], rfl⟩
+        (by rw [ha]; simp [printToks]) (hatt _ (Or.inr ⟨k5, k7, rfl⟩))
     · rw [ha] at hkind; simp [k15, k17] at hkind
 
 end Occa.Expr
@@ -1172,8 +1374,10 @@ theorem shStep_close_eq (s : Sh) (o : Op) (next : Option Tok) (sc : ShScope) (re
     shStep s (.op o) next =
       if o.ty == sc.closerTy && s.pendingQ == 0 && (!s.needOperand || s.content == .empty) then
         if sc.inE && has o.ty T.parentheses && s.content == .oneType then
-          some { needOperand := true, pendingQ := sc.savedQ, content := .other, stack := rest,
-                 prev := some (.op o), prevCastEnd := true }
+          if sc.castOk then
+            some { needOperand := true, pendingQ := sc.savedQ, content := .other, stack := rest,
+                   prev := some (.op o), prevCastEnd := true }
+          else none
         else
           some { needOperand := false, pendingQ := sc.savedQ, content := .other, stack := rest,
                  prev := some (.op o), prevCastEnd := false }
@@ -1202,11 +1406,16 @@ theorem step_close (s s' : Sh) (σ σ' : St) (o : Op) (next : Option Tok) (consu
       have hfs : cur.fs = cur.pre ++ baseFrames (some n) := by rw [Lvl.fs, hbase]
       have hopn : has n.op.ty T.pairStart = true := hgood.frames.ok (Frame.opn n) (by rw [hfs]; simp [baseFrames])
       have hm : (o.ty == shl1 n.op.ty) = true := by rw [hc1, hpair.closer]; simp
-      obtain ⟨v', hclose, hvtoks, hvcl, hvty⟩ :=
+      obtain ⟨v', hclose, hvtoks, hvcl, hvty, hvcan⟩ :=
         close_core s σ consumed cur par stk' hinv o n psc hbase hparrep hpargood h2 hm hc2
           (by rcases hc3 with h | h
               · exact Or.inl h
               · exact Or.inr (by simpa using h))
+      have hcok : sc.inE = true → has o.ty T.parentheses = true → (s.content == .oneType) = true → sc.castOk = true := by
+        intro hE hpo hT
+        cases hck : sc.castOk with
+        | true => rfl
+        | false => simp [hE, hpo, hT, hck] at hsh
       obtain ⟨out', ops', par', hatt, hrep', hgood', hbase', htoks', hq', hshape⟩ :=
         attach_core par psc n o sc σ.cur.before v' (s.content == .oneType) hparrep hpargood hpair hopn hm hvcl
           (by
@@ -1221,7 +1430,7 @@ theorem step_close (s s' : Sh) (σ σ' : St) (o : Op) (next : Option Tok) (consu
                 cases h : isTypeNode v'
                 · rfl
                 · exact absurd (hvty.mp h) (by simp)
-              rw [this]; rfl)
+              rw [this]; rfl) hvcan hcok
       rw [step_close_eq σ o next psc pstack h1 h2 hσstack, hclose] at hst
       simp only [hatt, Except.ok.injEq] at hst
       have htokall : consumed ++ [Tok.op o] = allToks par' stk' := by
@@ -1231,7 +1440,10 @@ theorem step_close (s s' : Sh) (σ σ' : St) (o : Op) (next : Option Tok) (consu
       refine ⟨par', stk', ?_⟩
       by_cases hcast : (sc.inE && has o.ty T.parentheses && (s.content == .oneType)) = true
       · -- a cast
-        simp only [hcast, if_true, Option.some.injEq] at hsh hshape
+        have hck : sc.castOk = true := by
+          simp only [Bool.and_eq_true] at hcast
+          exact hcok hcast.1.1 hcast.1.2 hcast.2
+        simp only [hcast, if_true, hck, Option.some.injEq] at hsh hshape
         obtain ⟨hptop, m, hpfs, hmop⟩ := hshape
         subst hsh; subst hst
         constructor
